@@ -51,3 +51,29 @@ package local
 //@   modifies *
 //@   loop 0: invariant [t] true
 //@   loop 1: invariant [typed] forall k ref :: {smhas(&c.flowControls, k)} smhas(&c.flowControls, k) ==> smget(&c.flowControls, k) != nil
+
+// ---- the in-memory store's condition map (what the LimitStore stubs of C07 / C18 stand for in local mode) ----
+//@ const CLS = &s.clusters
+//@ const clsTyped = forall k ref :: {smhas(CLS, k)} smhas(CLS, k) ==> typeis(smget(CLS, k), "*upstreamCondition") && unbox(smget(CLS, k), "*upstreamCondition") != nil && allocated(unbox(smget(CLS, k), "*upstreamCondition"))
+//@ const theUC = unbox(smget(CLS, box(cluster)), "*upstreamCondition")
+//@ const condTyped = forall k ref, k2 ref :: {smhas(CLS, k), smhas(&unbox(smget(CLS, k), "*upstreamCondition").conditions, k2)} smhas(CLS, k) && smhas(&unbox(smget(CLS, k), "*upstreamCondition").conditions, k2) ==> typeis(smget(&unbox(smget(CLS, k), "*upstreamCondition").conditions, k2), "*v1alpha1.RateLimitCondition")
+
+// Delete forgets exactly the named condition of the named upstream: nothing of another name, nothing of another upstream.
+//@ func (*localStore).Delete props C18
+//@   requires [typed] clsTyped
+//@   modifies smap(&theUC.conditions)
+//@   ensures [forgotten] old(smhas(CLS, box(cluster))) ==> !smhas(&old(theUC).conditions, box(name))
+//@   ensures [others_kept] old(smhas(CLS, box(cluster))) ==> forall k2 ref :: {smhas(&old(theUC).conditions, k2)} k2 != box(name) ==> smhas(&old(theUC).conditions, k2) == old(smhas(&theUC.conditions, k2))
+//@   ensures [ok] result == nil
+
+// Save makes the condition the current one under (upstream, condition.Name); Get returns the current one.
+//@ func (*localStore).Save props C07, C18
+//@   requires [typed] clsTyped && condition != nil
+//@   modifies smap(CLS), *
+//@   ensures [stored] result == nil && smhas(CLS, box(cluster)) && typeis(smget(CLS, box(cluster)), "*upstreamCondition") && theUC != nil && smhas(&theUC.conditions, box(old(condition.Name))) && smget(&theUC.conditions, box(old(condition.Name))) == box(condition)
+//@   ensures [same_upstream_object] old(smhas(CLS, box(cluster))) ==> smget(CLS, box(cluster)) == old(smget(CLS, box(cluster)))
+//@ func (*localStore).Get props C07, C18
+//@   requires [typed] clsTyped && condTyped
+//@   modifies nothing
+//@   ensures [current] result1 == nil ==> smhas(CLS, box(cluster)) && smhas(&theUC.conditions, box(name)) && box(result) == smget(&theUC.conditions, box(name))
+//@   ensures [found] smhas(CLS, box(cluster)) && smhas(&theUC.conditions, box(name)) ==> result1 == nil
